@@ -2,3 +2,4 @@ pub mod vlq;
 pub mod prov;
 pub mod replace_attr;
 pub mod lookup;
+pub mod rope_prog;
